@@ -52,14 +52,20 @@ macro_rules! binop_spellings {
             let args = [aw[0].to_bits(), aw[1].to_bits(), bw[0].to_bits(), bw[1].to_bits()];
             match kind {
                 0 => {
-                    let rs = eval(vec![
+                    let mut list: Vec<(&'static str, Box<dyn Fn() -> TF + '_>)> = vec![
                         ("a op b", Box::new(|| a $op b)),
                         ("&a op b", Box::new(|| &a $op b)),
                         ("a op &b", Box::new(|| a $op &b)),
                         ("&a op &b", Box::new(|| &a $op &b)),
                         ("a op= b", Box::new(|| { let mut t = a; t $asg b; t })),
                         ("a op= &b", Box::new(|| { let mut t = a; t $asg &b; t })),
-                    ]);
+                    ];
+                    if args[0] == args[2] && args[1] == args[3] {
+                        // equal operands: also the spelling in which both references point to the SAME object
+                        list.push(("&a op &a (one object)", Box::new(|| &a $op &a)));
+                        list.push(("r = &a; r op r", Box::new(|| { let r = &a; r $op r })));
+                    }
+                    let rs = eval(list);
                     all_same("spelling tf,tf", $cname, &args, &rs)
                 }
                 1 => {
@@ -404,7 +410,7 @@ pub fn run(r: &mut Runner) {
         rec.record(l, base2 + i as u64, traits_unary(all[i]));
     });
     // binary trait entry points over a thinned pair set, with a third operand for mul_add
-    let step = if quick { 5 } else { 2 };
+    let step = 1;
     let sub: Vec<[f64; 2]> = all.iter().step_by(step).cloned().collect();
     let m = sub.len();
     r.par("binary trait entry points", m, (m * m) as u64, |i, l| {
